@@ -97,7 +97,7 @@ def string_oracle(case):
         else:
             v = text
             if rep_ok(v) == "newline":
-                return None          # not a value any parse produces (and not representable in CSS text at all)
+                return None          # open finding C03-backslash-before-newline; exercised through parsed sources (kind 's')
         t1 = helper.string(v)
         toks2 = _tok1(t1 + follow)
         feat = feature(v) + head_tag(v)
@@ -164,7 +164,7 @@ def ref_string(v):
 def rep_ok(v):
     """QuoteFacts.rep_ok: the values string_roundtrip is proved for. Returns None (representable) or the reason:
     'dquote' (an escape-introducing backslash directly before a double quote) / 'newline' (a backslash before a
-    newline character; no CSS text denotes such a value, Tokenizer.cleanstring removes it)"""
+    newline character: helper.string writes backslash + newline escape, which unicodesub + cleanstring delete)"""
     st = 0
     for c in v:
         if st == 0:
@@ -468,6 +468,8 @@ def refine(f, text, cause):
             # which writes a value without '(', ')', white space, ';', ',' or quotes bare, backslashes included
             if ok_u:
                 return " [input has a url() value with a backslash, written as the reference helper.uri writes it]"
+            if any(t[0] == "STRING" and rep_ok(_stv(t)) == "newline" for t in _tok1(text, True)):
+                return " [input has a string value with a backslash before a newline character, written as the reference helper.string writes it]"
             return " [only string values have a backslash]" if ok_s else " [no such value in the input]"
         if cause.startswith("attribute selector:"):
             m = re.search(r"\['([^']*)', '[^']*'\] != ", d)
